@@ -916,6 +916,7 @@ namespace riddle
         }
         case RETURN_ID:
         {
+            tk = next();
             expression *e = _expression();
             if (!match(SEMICOLON_ID))
                 error("expected ';'..");
